@@ -40,8 +40,13 @@ def gen(seed, run, sub="clean", tier="quick"):
             readings[line] = ({"X": x, "Y": y, "Z": z, "E": 0.0} if q == "M114" else
                               {"T": x, "B": y} if q == "M105" else
                               {"X": x, "Y": y, "Z": z, "F": 0.0, "S": 0.0})
-        elif u < 0.72:
+        elif u < 0.70:
             text = "G1 X%d Y%s F%d" % (i, r.choice(["0", "-1.5", "12.25"]), 100 + i)
+        elif u < 0.72:
+            # one-character and '$' statements (Grbl real-time and system commands): the firmware
+            # model acknowledges every line, whatever it says
+            left = [t for t in ("?", "!", "~", "$X", "$H", "$$", "\x18") if t not in stmts]
+            text = r.choice(left) if left else "G1 X%d" % i
         elif u < 0.80:
             # inner tabs / runs of blanks, surrounding whitespace (only the latter is stripped)
             text = r.choice(["G1   X%d\tY3", "M117 Layer  %d   of 10", "  G0 X%d  Z1.5\t", "\tM118  stmt %d  done",
@@ -69,6 +74,8 @@ def gen(seed, run, sub="clean", tier="quick"):
         slow[str(r.randrange(n))] = round(r.choice([31.0, 45.0, 90.0]) + r.random(), 3)
     timeout = r.choice([0.3, 1.0, 5.0]) if (sub == "clean" and r.random() < 0.25) else None
     draws = common.gen_draws(r)
+    if transport == "serial" and r.random() < 0.1:
+        draws["wblock"] = [r.choice([0, 0, 0, 0, 0.5, 12.0, 25.0]) for _ in range(16)]   # slow port now and then
     if transport == "socket":
         fr = r.choice([0, 1, 2, 3, 7, 64])
         draws["cut"] = [r.choice([fr, fr, 0.5, 0]) for _ in range(24)] if fr else []
